@@ -36,8 +36,8 @@ def _validate(trace, res, what):
     ok, r = vlib.validate_trace(SD, "MergeSourceTrace", trace, tag="ms_" + what)
     if not ok:
         raise vlib.ToolError("trace not consumed by MergeSourceTrace (%s):\n%s" % (what, r.error_trace[-2000:]))
-    viol = vlib.printed_json(r, "VIOL")
-    drift = vlib.printed_json(r, "DRIFT")
+    viol = vlib.printed_json(r, "VIOL", required=True)
+    drift = vlib.printed_json(r, "DRIFT", required=True)
     res.add_tlc(r, "trace-validation:" + what)
     return (viol[0] if viol else []), (drift[0] if drift else [])
 
